@@ -7,6 +7,7 @@ import (
 	"time"
 
 	pb "github.com/google/go-tdx-guest/proto/tdx"
+	"github.com/google/go-tdx-guest/verify"
 	"github.com/google/go-tdx-guest/verify/trust"
 	"verif/sim/core"
 	"verif/sim/world"
@@ -280,6 +281,7 @@ func c01Run(r *core.Run) {
 
 	// (a) single-bit flips of header, body, attestation key, QE report, QE auth data
 	flipEvery := r.Thorough() || r.Index < 16
+	flipLong := worldOpts(w, O0)
 	if flipEvery {
 		total := 0
 		for _, rg := range regs {
@@ -323,6 +325,11 @@ func c01Run(r *core.Run) {
 						m := w.Quote.FromRaw(b, regs).Proto(0)
 						judge("bitflip-msg:"+rg.Name, item, verifyMsg(m, worldOpts(w, O0)), "base", "TdxQuote(message)")
 						judge("bitflip:"+rg.Name, item, verifyRaw(b, worldOpts(w, O2)), "collateral+revocation", "RawTdxQuote")
+						// and through a long-lived options value that has just verified the genuine raw quote
+						if ctl := verifyRaw(raw, flipLong); !ctl.Accepted() {
+							r.Count("control_failed", 1)
+						}
+						judge("bitflip-msg:"+rg.Name, item+" (through an options value that had just verified the genuine raw quote)", verifyMsg(m, flipLong), "base", "TdxQuote(message)")
 					}
 					r.EndItem()
 				}
@@ -369,6 +376,7 @@ func c01Run(r *core.Run) {
 	}
 
 	// (b)-(d) forgeries
+	longLived := map[int]*verify.Options{O0: worldOpts(w, O0), O1: worldOpts(w, O1), O2: worldOpts(w, O2)}
 	for _, f := range c01Forgeries(r, w) {
 		if !r.Item(f.name) {
 			continue
@@ -393,6 +401,21 @@ func c01Run(r *core.Run) {
 					continue
 				}
 				judge(forgeryKind(f.name), f.name, o, optNames[level], forms[i])
+			}
+			// one long-lived options value per level: it has just verified the GENUINE quote in raw form when the
+			// forgery arrives in message form (and the other way round) — what it remembers of the one is of no
+			// use to the other
+			if f.q != nil && !isControl {
+				lo := longLived[level]
+				if ctl := verifyRaw(raw, lo); !ctl.Accepted() {
+					r.Count("control_failed", 1)
+				}
+				judge(forgeryKind(f.name), f.name+" (message form, through an options value that had just verified the genuine raw quote)", verifyMsg(f.q.Proto(0), lo), optNames[level], "TdxQuote(message)")
+				if ctl := verifyMsg(w.Quote.Proto(0), lo); !ctl.Accepted() {
+					r.Count("control_failed", 1)
+				}
+				judge(forgeryKind(f.name), f.name+" (raw form, through an options value that had just verified the genuine message)", verifyRaw(f.q.Bytes(), lo), optNames[level], "RawTdxQuote")
+				r.Probe("forgery_through_long_lived_options")
 			}
 			// the same with the verification time left to the library
 			if nowWorld && f.q != nil {
@@ -494,6 +517,6 @@ func init() {
 			return 24
 		},
 		Run:       c01Run,
-		MustProbe: []string{"bitflips_enumerated", "message_high_bits", "forgery_under_getter_fault", "forgery_with_now_unset"},
+		MustProbe: []string{"bitflips_enumerated", "message_high_bits", "forgery_under_getter_fault", "forgery_with_now_unset", "forgery_through_long_lived_options"},
 	})
 }
